@@ -370,6 +370,12 @@ func IPv6FindUpperProtocol(packet []byte) (nextHeader uint8, offset int, isFragm
 			anyFragment = true
 			// Non-first fragments carry no transport header, report the fragmented protocol and stop
 			if packet[offset+2] != 0 || packet[offset+3]&0xf8 != 0 {
+				switch packet[offset] {
+				case 0, 43, 44, 51, 60:
+					// The fragmentable part starts with another extension header that lives in the first
+					// fragment, so the upper layer protocol cannot be known from this one. Fail closed.
+					return packet[offset], offset, true, anyFragment, ErrIPv6CouldNotFindPayload
+				}
 				return packet[offset], offset, true, anyFragment, nil
 			}
 			nextHeader = packet[offset]
